@@ -47,6 +47,16 @@ func c04Sessions(tier string) [][]string {
 		[]string{"t=0; func cnt(){t=t+1; t}", "cnt()", "cnt()", "cnt()"},
 		[]string{"func g(u){println(u); u}", "g(x)", "g(y)", "g(x)"},
 		[]string{"func fact(n){if n<=1 {return 1}; n*fact(n-1)}", "fact(k0)", "fact(k1)", "fact(k0)"},
+		// a caller whose callee reads mutable outer state (found by a sub-agent's reading of the code)
+		[]string{"v=a; func rd2(){v}; func wrap(){rd2()}", "wrap()", "v=b", "wrap()"},
+		[]string{"v=a; g=func(){v}; f=func(){g()+1}; h=func(){f()*2}", "h()", "v=b", "h()", "f()"},
+		[]string{"v=a; func rd3(u){u+v}; func w2(u){println(\"w2\"); rd3(u)}", "w2(c)", "v=b", "w2(c)"},
+		// a top-level function rebound from inside a call, then used again within the same top-level input
+		[]string{"func g(){1}; func f(){g()}; func swap(){g=func(){2}; f()}", "f()", "swap()", "f()"},
+		[]string{"func g(u){println(\"g1\"); u+1}; func f(u){g(u)}; func swap(u){g=func(t){println(\"g2\"); t+2}; f(u)}", "f(a)", "swap(a)", "f(a)"},
+		// closure factories called with EQUAL arguments must still give independent closures (solver: a == b)
+		[]string{"func mk(k){()=>{k=k+1;k}}", "g=mk(a); g()", "h=mk(b); h()", "g()", "h()"},
+		[]string{"func acc(){t=[]; (e)=>{t=t+[e]; t}}", "p1=acc(); p1(a)", "p2=acc(); p2(b)", "p1(c)"},
 	)
 	return out
 }
